@@ -7,6 +7,9 @@ ROT-EXP     closed-form coefficients are cos n, sin n / n, (1 - cos n)/n^2 (as s
             util.skew_matrix: the routine is the exponential map
 EULER-CONV  every Euler conversion of roll/pitch/heading data uses the defining
             convention (extrinsic 'xyz', degrees)
+EULER-INV   mat_to_rph inverts mat_from_rph on the whole domain (roll, heading in (-180, 180],
+            |pitch| < 90): either the scipy pair with one sequence/degree flag, or a closed form
+            whose inverse trigonometric calls cover the full range of the angle they return
 """
 import ast
 from fractions import Fraction
@@ -235,5 +238,105 @@ def euler_conv(ctx):
                f=f, node=n,
                why="roll/pitch/heading conversion uses sequence %r, degrees=%r; the library's "
                    "convention is extrinsic 'xyz' in degrees" % (seq, deg))
-    ctx.need(found_def == set(defining), 'defining pair mat_from_rph/mat_to_rph not found')
-    ctx.floor('EULER-CONV', n3, 9, "3-axis Euler conversion sites")
+    missing = set(defining) - found_def
+    if missing:
+        if 'euler-closed' not in ctx.cache:
+            euler_inv(ctx)
+        ctx.need(missing <= ctx.cache.get('euler-closed', set()),
+                 'defining pair mat_from_rph/mat_to_rph not found')
+    ctx.floor('EULER-CONV', n3, 9 - len(missing), "3-axis Euler conversion sites")
+
+
+def euler_inv(ctx):
+    ctx.rule('EULER-INV', 'mat_to_rph(mat_from_rph(r, p, h)) == (r, p, h) for roll, heading in '
+             '(-180, 180] and |pitch| < 90 (symbolic; scipy pair by its contract, closed forms '
+             'by the range of the inverse trigonometric function used)')
+    from ..rotmodel import RotHooks, EulerOf, from_euler
+    repo = ctx.repo
+    f_from = repo.function('transform.mat_from_rph')
+    f_to = repo.function('transform.mat_to_rph')
+    ctx.touch(f_from)
+    ctx.touch(f_to)
+    A = Alg()
+    ev = SymEval(repo, A, hooks=RotHooks())
+    names = ['roll', 'pitch', 'heading']
+    ang = [A.sym(n) for n in names]
+    rad = [A.mul(A.sym(A.D2R), a) for a in ang]
+    cp = A.cos(rad[1])
+    A.nonneg = set(A.atoms_of(cp))          # |pitch| < 90
+    vec = SArray((3,), {(i,): a for i, a in enumerate(ang)})
+    try:
+        M = ev.call_function(f_from, [vec])
+    except Unsupported as e:
+        raise AnalysisError('mat_from_rph not analysable: %s' % e)
+    ctx.need(isinstance(M, SArray) and M.shape == (3, 3), 'mat_from_rph does not return a 3x3 matrix')
+    try:
+        out = ev.call_function(f_to, [M])
+    except Unsupported as e:
+        raise AnalysisError('mat_to_rph not analysable: %s' % e)
+    closed = ctx.cache.setdefault('euler-closed', set())
+    if isinstance(out, EulerOf):
+        # scipy: as_euler(seq, degrees) inverts from_euler(seq, ., degrees) - the matrix must be
+        # the one from_euler builds for that sequence from (roll, pitch, heading)
+        try:
+            Mm = from_euler(ev, out.seq, vec, out.degrees).mat
+            same = all(A.eq(Mm.get((i, j)), out.mat.get((i, j))) for i in range(3) for j in range(3))
+        except Unsupported:
+            same = False
+        ctx.ob('EULER-INV', same, None,
+               "as_euler(%r, degrees=%r) is applied to the matrix that from_euler builds with the "
+               "same sequence and unit from (roll, pitch, heading)" % (out.seq, out.degrees),
+               f=f_to, key='pair',
+               why="mat_to_rph extracts Euler angles with sequence %r, degrees=%r, which is not the "
+                   "convention mat_from_rph builds the matrix with" % (out.seq, out.degrees))
+        return
+    closed.add('mat_to_rph')
+    ctx.need(isinstance(out, SArray) and out.shape == (3,), 'mat_to_rph does not return 3 angles')
+    r2d = A.sym(A.R2D)
+    d2r = A.sym(A.D2R)
+    fa = getattr(A, 'func_arg', {})
+
+    def positive(k):
+        if A.is_const(k):
+            return A.const_of(k) > 0
+        if len(k.n.t) != 1:
+            return False
+        (m, c), = k.n.t.items()
+        return c > 0 and all(A._nonneg(a) or pw % 2 == 0 for a, pw in m)
+
+    for i, nm in enumerate(names):
+        v = A.mul(out.get((i,)), d2r)                  # radians
+        a = rad[i]
+        full = nm != 'pitch'
+        dom = '(-180, 180]' if full else '(-90, 90)'
+        ok, why = None, ''
+        if len(v.n.t) == 1:
+            (m, c), = v.n.t.items()
+            if len(m) == 1 and m[0][1] == 1 and m[0][0] in fa and abs(c) == 1:
+                fn, args = fa[m[0][0]]
+                sg = A.const(c)
+                if fn == 'arctan2' and len(args) == 2:
+                    Y, X = A.mul(sg, args[0]), args[1]      # c * atan2(y, x) = atan2(c y, x)
+                    col = A.is_zero(A.sub(A.mul(X, A.sin(a)), A.mul(Y, A.cos(a))))
+                    k = A.add(A.mul(X, A.cos(a)), A.mul(Y, A.sin(a)))
+                    ok = col and positive(k)
+                    why = ('arctan2 arguments are not (k sin %s, k cos %s) with k > 0' % (nm, nm))
+                elif fn == 'arcsin' and len(args) == 1:
+                    ok = (not full) and A.is_zero(A.sub(A.mul(sg, args[0]), A.sin(a)))
+                    why = ('arcsin returns values in [-90, 90] only; %s ranges over %s' % (nm, dom)
+                           if full else 'arcsin argument is not sin(%s)' % nm)
+                elif fn == 'arctan' and len(args) == 1:
+                    ok = (not full) and A.is_zero(A.sub(A.mul(A.mul(sg, args[0]), A.cos(a)),
+                                                        A.sin(a)))
+                    why = ('single-argument arctan returns values in (-90, 90) only and loses the '
+                           'quadrant; %s ranges over %s' % (nm, dom)
+                           if full else 'arctan argument is not tan(%s)' % nm)
+                elif fn == 'arccos':
+                    ok = False
+                    why = 'arccos returns values in [0, 180] only: the sign of %s is lost' % nm
+        if ok is None:
+            raise AnalysisError('mat_to_rph: %s is not a recognised closed form (%s)'
+                                % (nm, A.key(out.get((i,)))[:120]))
+        ctx.ob('EULER-INV', ok, None, '%s is recovered on its whole domain %s' % (nm, dom),
+               f=f_to, key='closed-' + nm,
+               why='mat_to_rph does not return the %s that mat_from_rph was given: %s' % (nm, why))
